@@ -231,3 +231,13 @@ Fixpoint print (nested : bool) (e : pexpr) : list byte :=
       else print false a ++ [x3b] ++ print false b
   end.
 Definition print_top (e : pexpr) : list byte := print false e.
+
+(** well-formedness of the concrete syntax, declaratively: parentheses balanced - never more ')'
+    than '(' so far, none open at the end *)
+Fixpoint balanced (s : list byte) (open : Z) : bool :=
+  match s with
+  | [] => open =? 0
+  | x28 :: tl => balanced tl (open + 1)
+  | x29 :: tl => if open <=? 0 then false else balanced tl (open - 1)
+  | _ :: tl => balanced tl open
+  end.
